@@ -303,3 +303,18 @@ Example C16Rest_example_units :
   p_lead_term (var_mono Z_exp) Z_ring [((-1)%Z, 1%Z); (0%Z, 1%Z)] = (0%Z, 1%Z) /\
   p_is_const (var_mono Z_exp) [((-1)%Z, 1%Z); (0%Z, 1%Z)] = false.
 Proof. vm_compute. repeat split; reflexivity. Qed.
+
+(* the domain theorem at work: x + 1 has no inverse in Z[x, x^-1] (is_unit computes to false) *)
+Example C16Rest_example_not_invertible :
+  let m := var_mono Z_exp in
+  let p : lc Z Z := [(1%Z, 1%Z); (0%Z, 1%Z)] in
+  WF Z_ring any p /\ ~ exists q, WF Z_ring any q /\ peq m Z_ring (p_mul m Z_ring p q) (p_one m Z_ring).
+Proof.
+  cbv zeta.
+  assert (Hp : WF Z_ring any [(1%Z, 1%Z); (0%Z, 1%Z)]).
+  { split; [split|]; cbn; repeat constructor; cbn; intuition discriminate. }
+  split; [exact Hp|]. intros H.
+  apply (C16Rest_is_unit_iff_invertible (var_mono Z_exp) Z_ring any (var_laws Z_exp (fun z => z) Z_exp_laws) Z_ring_laws
+           (var_unit_laws Z_exp (fun z => z) Z_exp_laws) Z_units Z_units_laws _ Z_integral Hp) in H.
+  discriminate H.
+Qed.
